@@ -50,6 +50,14 @@ def run(ctx, B):
                 W[(Z, n)] = float(X.call("CS_FluorLine", [Z], [mac[n + "_LINE"]], [ed + 0.1])["v0"][0]) if ed > 0 else 0.0
         groups = [("KA", KA, R), ("KB", KB, R), ("LA", LA, R), ("LB", LB, W)] + [(d, doublet_members(d), R) for d in DOUBLETS]
         nt = 0
+        # row-wise: for every element all group macros in a row, twice (a scratch buffer shared between the branches of different groups, or a cache keyed on Z
+        # that another group's call overwrites, shows when the row comes round again); compared below with the column-wise results
+        gms = np.array([mac[g_[0] + "_LINE"] for g_ in groups])
+        Zrow = np.repeat(Zs, 2 * len(gms)); Lrow = np.tile(np.concatenate([gms, gms]), len(Zs))
+        rrow = X.call("LineEnergy", Zrow, Lrow); ctx.add(evaluations=len(Zrow))
+        rowres = {}
+        for q in range(len(Zrow)):
+            rowres.setdefault((int(Zrow[q]), int(Lrow[q])), []).append((float(rrow["v0"][q]), bool(rrow["flags"][q] & F_ERR)))
         for gname, members, weight in groups:
             gm = mac[gname + "_LINE"]
             r = X.call("LineEnergy", Zs, np.full(len(Zs), gm))
@@ -64,6 +72,11 @@ def run(ctx, B):
             for j, Z in enumerate(Zs):
                 Z = int(Z)
                 err = bool(r["flags"][j] & F_ERR); v = float(r["v0"][j])
+                for (v_, e_) in rowres.get((Z, int(gm)), []):
+                    if (v_ != v and not (v_ != v_ and v != v)) or e_ != err:
+                        ctx.violation("%s|LineEnergy|%s|Z=%d|order-dependent" % (cfg, gname, Z), "LineEnergy(%d,%s) = %r (err=%s) in a sweep over Z but %r (err=%s) between the other group macros of the same element" % (
+                            Z, gname, v, err, v_, e_), dict(cfg=cfg, calls=[dict(fn="LineEnergy", args=[Z, int(m_)]) for m_ in list(gms) + list(gms)]))
+                        break
                 if not (1 <= Z <= 120):
                     if not (err and v == 0):
                         ctx.violation("%s|LineEnergy|%s|Z-out-of-range" % (cfg, gname), "LineEnergy(%d,%s) must fail" % (Z, gname))
